@@ -8,6 +8,7 @@ import (
 	"fmt"
 	"go/constant"
 	"go/types"
+	"strconv"
 	"strings"
 
 	"golang.org/x/tools/go/ssa"
@@ -300,4 +301,95 @@ func (ip *Interp) show(v Value) string {
 		return "&" + ip.show(*v)
 	}
 	return fmt.Sprintf("%T", v)
+}
+
+// renderObs renders an observed value under a model in the format of the native
+// runtime's Observe (strings %q, []byte hex, []string %q, integers decimal).
+func (ip *Interp) renderObs(v interface{}, m Model) string {
+	it, ok := v.(Iface)
+	if !ok {
+		return "?"
+	}
+	if it.t == nil {
+		return "<nil>"
+	}
+	evalStr := func(sv Value) (string, bool) {
+		switch sv := sv.(type) {
+		case string:
+			return sv, true
+		case *SymStr:
+			var buf []byte
+			for _, g := range sv.segs {
+				switch g.kind {
+				case segBytes:
+					for _, b := range g.b {
+						buf = append(buf, byte(Eval(b, m)))
+					}
+				case segNum:
+					x := Eval(g.num, m)
+					var s string
+					if g.signed {
+						s = strconv.FormatInt(sext(x, g.num.w), g.base)
+					} else {
+						s = strconv.FormatUint(x, g.base)
+					}
+					if g.upper {
+						s = strings.ToUpper(s)
+					}
+					for len(s) < g.minw {
+						s = "0" + s
+					}
+					buf = append(buf, s...)
+				default:
+					return "", false
+				}
+			}
+			return string(buf), true
+		}
+		return "", false
+	}
+	switch val := it.v.(type) {
+	case string, *SymStr:
+		s, ok := evalStr(val)
+		if !ok {
+			return "?"
+		}
+		return fmt.Sprintf("%q", s)
+	case *Term:
+		x := Eval(val, m)
+		if isBool(it.t) {
+			return fmt.Sprintf("%v", x != 0)
+		}
+		_, signed, isInt, _ := basicInfo(it.t)
+		if !isInt {
+			return "?"
+		}
+		if signed {
+			return strconv.FormatInt(sext(x, val.w), 10)
+		}
+		return strconv.FormatUint(x, 10)
+	case Slice:
+		et := it.t.Underlying().(*types.Slice).Elem()
+		if isString(et) {
+			var parts []string
+			for _, e := range val.s {
+				s, ok := evalStr(e)
+				if !ok {
+					return "?"
+				}
+				parts = append(parts, s)
+			}
+			return fmt.Sprintf("%q", parts)
+		}
+		var buf []byte
+		for _, e := range val.s {
+			t, ok := e.(*Term)
+			if !ok || t.w != 8 {
+				return "?"
+			}
+			buf = append(buf, byte(Eval(t, m)))
+		}
+		return fmt.Sprintf("%x", buf)
+	}
+	return "?"
 }
